@@ -29,6 +29,9 @@ def run(ctx, out, tier):
     for b in ctx.reachable_bodies():
         if any(callee_matches(t, r"^async_openai::Chat::<'c, C>::create$|^async_openai::Chat::.*::create$") for bi, t in b.calls()):
             cb = b
+    if cb is not None:
+        # normalised view: synchronous helpers inlined, Option / Result combinators expanded
+        cb = ctx.inl(cb, skip=ctx.domain_api, tag="domain", sugar=True)
     n = 0
     if cb is None:
         out.inst("C19.request", 0, 5, note="request function (Chat::create) not found")
@@ -44,10 +47,11 @@ def run(ctx, out, tier):
         # empty key -> Err before any request
         key_guard = None
         for bi, j, s in cb.assigns():
-            if s["lhs"]["l"] == 0 and s["rv"]["k"] == "agg" and s["rv"].get("variant") == "Err":
+            if s["rv"]["k"] == "agg" and s["rv"].get("variant") == "Err" and s["rv"].get("path") == "std::result::Result":
                 for br, vals, e in util.guards(ctx, cb, bi):
                     txt = render(e, 600)
-                    if re.match(r"^str::is_empty\(", txt) and "expose_secret" in txt and "api_key" in txt and 0 not in vals:
+                    if re.match(r"^str::is_empty\(", txt) and "expose_secret" in txt and "api_key" in txt and 0 not in vals \
+                            and util.arm_only_err(ctx, cb, br, vals):
                         key_guard = br
         if key_guard is not None and creates and cfg.dominates(key_guard, creates[0][0]):
             n += 1
@@ -135,6 +139,22 @@ def run(ctx, out, tier):
                         m += 1
                     else:
                         out.viol("C19.env", "C19.env|key-default", ctx.where(ne, t["span"]), "an unset API key defaults to %r instead of the empty key that is rejected before any request" % cs)
+            elif callee_matches(t, r"Result::<T, E>::unwrap_or_default$") and "std::string::String" in (t.get("dest_ty") or ""):
+                if P.has_const(ctx.prov.read_operand(ne, t["args"][0]), "BLOCKWATCH_AI_API_KEY"):
+                    m += 1      # String::default() is the empty string
+            elif callee_matches(t, r"Result::<T, E>::unwrap_or_else$"):
+                src = ctx.prov.read_operand(ne, t["args"][0])
+                if P.has_const(src, "BLOCKWATCH_AI_API_KEY"):
+                    from engine.desugar import resolve_closure
+                    tgt, cap = resolve_closure(ctx.facts, ne.blocks, t["args"][1])
+                    cs = None
+                    if tgt is not None and not isinstance(tgt, tuple):
+                        cs = [x[1] for bi2, j2, s2 in tgt.assigns() for x in walk(ctx.expr(tgt).rvalue(s2["rv"])) if x[0] == "const" and isinstance(x[1], str)]
+                        calls = [callee_name(t2) for _, t2 in tgt.calls()]
+                        if (cs == [""] or (not cs and any(re.search(r"String::new$|Default>::default$", c) for c in calls))):
+                            m += 1
+                            continue
+                    out.viol("C19.env", "C19.env|key-default", ctx.where(ne, t["span"]), "an unset API key defaults to %r instead of the empty key that is rejected before any request" % cs)
         # the detector builds the production client from the environment
         info = ctx.validator(NAME)
         det = ctx.facts.bodies.get(info["detect"]) if info and info.get("detect") else None
@@ -185,8 +205,9 @@ def run(ctx, out, tier):
                     v = util.const_val(ctx, cb, a)
                     if isinstance(v, str):
                         consts.add(v)
+        rslots = util.return_slots(cb)
         for bi, j, s in cb.assigns():
-            if s["lhs"]["l"] == 0 and s["rv"]["k"] == "agg" and s["rv"].get("variant") == "Ok":
+            if s["lhs"]["l"] in rslots and not s["lhs"]["p"] and s["rv"]["k"] == "agg" and s["rv"].get("variant") == "Ok":
                 pe = E.operand(s["rv"]["ops"][0])
                 is_none = pe[0] == "agg" and pe[1].endswith("::None")
                 gs = util.guards(ctx, cb, bi)
